@@ -1,0 +1,283 @@
+//go:build verif
+
+package heap
+
+// Contracts for the deductive verifier in /verif (gvc). Comment-only; compiled only with -tags verif.
+//
+// Representation invariant: the comparator is a strict weak order and no element precedes its parent.
+// Conservation is stated through a ghost arrangement: data[k] == ref[perm[k]] with perm injective, where ref is
+// a fixed reference sequence chosen by the public operation (the old contents, plus pushed values).
+
+//@ pred swo(c gogu.CompFn) := c != nil && (forall a T :: !call(c, a, a)) && (forall a T, b T, e T :: call(c, a, b) && call(c, b, e) ==> call(c, a, e)) && (forall a T, b T, e T :: !call(c, a, b) && !call(c, b, e) ==> !call(c, a, e))
+//@ pred ord(d []T, c gogu.CompFn, k int) := !call(c, d[k], raw(d, (k-1)/2))
+//@ pred H(d []T, c gogu.CompFn, n int, lo int) := forall k int :: { d[k] } 1 <= k && k < n && (k-1)/2 >= lo ==> ord(d, c, k)
+//@ pred heapInv(h *Heap) := h.mu != nil && swo(h.comp) && H(h.data, h.comp, len(h.data), 0)
+//@ pred permOK(d []T, n int, ref seq[T], p map[int]int, plo int, phi int) := (forall k int :: { p[k] } 0 <= k && k < n ==> plo <= p[k] && p[k] < phi && d[k] == ref[p[k]]) && (forall a int, b int :: { p[a], p[b] } 0 <= a && a < b && b < n ==> p[a] != p[b])
+
+//@ pred permAbs(d []T, n int, ref seq[T], off int, p map[int]int, plo int, phi int) := (forall k int :: { p[k] } 0 <= k && k < n ==> plo <= p[k] && p[k] < phi && d[k] == ref[off + p[k]]) && (forall a int, b int :: { p[a], p[b] } 0 <= a && a < b && b < n ==> p[a] != p[b])
+
+//@ func (*heap.Heap).moveDown
+//@   property C03 C01
+//@   lock h.mu : W
+//@   ghost-param lo int
+//@   ghost-param ref seq[T]
+//@   ghost-param p0 map[int]int
+//@   ghost-param plo int
+//@   ghost-param phi int
+//@   ghost perm map[int]int = p0
+//@   ghost tmp int
+//@   ghost src map[int]int = idmap()
+//@   requires 0 <= i && 0 <= lo && lo <= i + 1 && 0 <= n && n <= len(h.data) && swo(h.comp)
+//@   requires forall k int :: { h.data[k] } 1 <= k && k < n && (k-1)/2 >= lo && (k-1)/2 != i ==> ord(h.data, h.comp, k)
+//@   requires i >= 1 && (i-1)/2 >= lo ==> forall k int :: { h.data[k] } 1 <= k && k < n && (k-1)/2 == i ==> !call(h.comp, h.data[k], h.data[(i-1)/2])
+//@   requires permOK(h.data, len(h.data), ref, p0, plo, phi)
+//@   modifies elems(h.data)
+//@   ensures H(h.data, h.comp, n, min(lo, i))
+//@   ensures permOK(h.data, len(h.data), ref, perm, plo, phi)
+//@   ensures forall k int :: (0 <= k && k < i && k < n) || (n <= k && k < len(h.data)) ==> h.data[k] == old(h.data[k])
+//@   ensures forall a int :: { src[a] } 0 <= a && a < n ==> 0 <= src[a] && src[a] < n && h.data[a] == old(h.data[src[a]]) && perm[a] == p0[src[a]]
+//@   ensures forall a int :: a < soff(h.data) || a >= soff(h.data) + len(h.data) ==> elems(h.data)[a] == old(elems(h.data)[a])
+//@   ghost-at swap#1: tmp = perm[i]
+//@   ghost-at swap#1: perm[i] = perm[current]
+//@   ghost-at swap#1: perm[current] = tmp
+//@   ghost-at moveDown#1: src = lambda a int :: (src[a] == i ? current : (src[a] == current ? i : src[a]))
+//@   call moveDown#1 ghost lo = min(lo, i); ref = ref; p0 = perm; plo = plo; phi = phi
+
+//@ func (*heap.Heap).moveUp
+//@   property C03 C01
+//@   lock h.mu : W
+//@   ghost-param ref seq[T]
+//@   ghost-param p0 map[int]int
+//@   ghost-param plo int
+//@   ghost-param phi int
+//@   ghost perm map[int]int = p0
+//@   ghost tmp int
+//@   requires 0 <= i && i < len(h.data) && swo(h.comp)
+//@   requires forall k int :: { h.data[k] } 1 <= k && k < len(h.data) && k != i ==> ord(h.data, h.comp, k)
+//@   requires i >= 1 ==> forall k int :: { h.data[k] } 1 <= k && k < len(h.data) && (k-1)/2 == i ==> !call(h.comp, h.data[k], h.data[(i-1)/2])
+//@   requires permOK(h.data, len(h.data), ref, p0, plo, phi)
+//@   modifies elems(h.data)
+//@   ensures H(h.data, h.comp, len(h.data), 0)
+//@   ensures permOK(h.data, len(h.data), ref, perm, plo, phi)
+//@   ensures forall a int :: a < soff(h.data) || a >= soff(h.data) + len(h.data) ==> elems(h.data)[a] == old(elems(h.data)[a])
+//@ loop 1
+//@   invariant 0 <= i && i < len(h.data)
+//@   invariant forall k int :: { h.data[k] } 1 <= k && k < len(h.data) && k != i ==> ord(h.data, h.comp, k)
+//@   invariant i >= 1 ==> forall k int :: { h.data[k] } 1 <= k && k < len(h.data) && (k-1)/2 == i ==> !call(h.comp, h.data[k], h.data[(i-1)/2])
+//@   invariant permOK(h.data, len(h.data), ref, perm, plo, phi)
+//@   invariant forall a int :: a < soff(h.data) || a >= soff(h.data) + len(h.data) ==> elems(h.data)[a] == old(elems(h.data)[a])
+//@   ghost-at swap#1: tmp = perm[i]
+//@   ghost-at swap#1: perm[i] = perm[(i-1)/2]
+//@   ghost-at swap#1: perm[(i-1)/2] = tmp
+
+//@ func heap.NewHeap
+//@   property C03 C01
+//@   requires swo(comp)
+//@   ensures result != nil && fresh(result) && heapInv(result) && len(result.data) == 0 && result.comp == comp && fresh(result.mu) && fresh(result.data)
+
+//@ func (*heap.Heap).Size
+//@   property C03 C01 C02
+//@   lock h.mu : none
+//@   requires h.mu != nil
+//@   ensures result == len(h.data)
+
+//@ func (*heap.Heap).IsEmpty
+//@   property C03 C01 C02
+//@   lock h.mu : none
+//@   requires h.mu != nil
+//@   ensures result <==> len(h.data) == 0
+
+//@ func (*heap.Heap).Peek
+//@   property C03 C01 C02
+//@   lock h.mu : none
+//@   requires heapInv(h)
+//@   lemma forall k int :: 0 <= k && k < len(h.data) ==> !call(h.comp, h.data[k], h.data[0])
+//@   ensures len(h.data) == 0 ==> result == zero
+//@   ensures len(h.data) > 0 ==> result == h.data[0]
+//@   ensures forall k int :: 0 <= k && k < len(h.data) ==> !call(h.comp, h.data[k], result)
+
+//@ func (*heap.Heap).Pop
+//@   property C03 C01 C02
+//@   lock h.mu : none
+//@   requires heapInv(h)
+//@   lemma forall k int :: 0 <= k && k < len(h.data) ==> !call(h.comp, h.data[k], h.data[0])
+//@   ghost ref seq[T] = lambda j int :: h.data[j]
+//@   ghost perm map[int]int
+//@   modifies h.data, elems(h.data)
+//@   ensures heapInv(h)
+//@   ensures old(len(h.data)) == 0 ==> result == zero && len(h.data) == 0
+//@   ensures old(len(h.data)) > 0 ==> result == old(h.data[0]) && len(h.data) == old(len(h.data)) - 1
+//@   ensures forall k int :: 0 <= k && k < old(len(h.data)) ==> !call(h.comp, old(h.data[k]), result)
+//@   ensures old(len(h.data)) > 0 ==> permOK(h.data, len(h.data), ref, perm, 1, old(len(h.data)))
+//@   call moveDown#1 ghost lo = 0; ref = ref; p0 = store(idmap(), 0, old(len(h.data)) - 1); plo = 1; phi = old(len(h.data))
+
+//@ func (*heap.Heap).Push
+//@   property C03 C01 C02
+//@   lock h.mu : none
+//@   requires heapInv(h)
+//@   requires len(val) == 0 || sarr(val) != sarr(h.data)
+//@   ghost ref seq[T] = lambda j int :: (j < len(h.data) ? h.data[j] : val[j - len(h.data)])
+//@   ghost perm map[int]int = idmap()
+//@   modifies h.data, elems(h.data)
+//@   ensures heapInv(h) && len(h.data) == old(len(h.data)) + len(val)
+//@   ensures fresh(h.data) || (sarr(h.data) == old(sarr(h.data)) && soff(h.data) == old(soff(h.data)))
+//@   ensures permOK(h.data, len(h.data), ref, perm, 0, len(h.data))
+//@   ensures forall j int :: { ref[j] } 0 <= j && j < old(len(h.data)) ==> ref[j] == old(h.data[j])
+//@   ensures forall j int :: { val[j] } 0 <= j && j < len(val) ==> ref[old(len(h.data)) + j] == val[j]
+//@ loop 1
+//@   invariant 0 <= $i && $i <= len(val) && heapInv(h) && len(h.data) == old(len(h.data)) + $i
+//@   invariant fresh(h.data) || (sarr(h.data) == old(sarr(h.data)) && soff(h.data) == old(soff(h.data)))
+//@   invariant permOK(h.data, len(h.data), ref, perm, 0, len(h.data))
+//@   call moveUp#1 ghost ref = ref; p0 = store(perm, len(h.data) - 1, len(h.data) - 1); plo = 0; phi = len(h.data)
+
+//@ func (*heap.Heap).Clear
+//@   property C03 C01 C02
+//@   lock h.mu : none
+//@   requires heapInv(h)
+//@   modifies h.data
+//@   ensures heapInv(h) && len(h.data) == 0
+
+//@ func (*heap.Heap).GetValues
+//@   property C03 C01
+//@   lock h.mu : none
+//@   requires h.mu != nil
+//@   ensures result == h.data
+
+//@ func (*heap.Heap).Convert
+//@   property C03 C01
+//@   lock h.mu : none
+//@   requires heapInv(h) && swo(comp)
+//@   ghost ref seq[T] = lambda j int :: h.data[j]
+//@   ghost perm map[int]int = idmap()
+//@   modifies h.comp, elems(h.data)
+//@   ensures heapInv(h) && h.comp == comp && len(h.data) == old(len(h.data))
+//@   ensures permOK(h.data, len(h.data), ref, perm, 0, len(h.data))
+//@ loop 1
+//@   invariant 0 - 1 <= i && (len(h.data) == 0 || i < len(h.data)) && h.comp == comp && h.mu != nil
+//@   invariant H(h.data, comp, len(h.data), i + 1)
+//@   invariant permOK(h.data, len(h.data), ref, perm, 0, len(h.data))
+//@   call moveDown#1 ghost lo = i + 1; ref = ref; p0 = perm; plo = 0; phi = len(h.data)
+
+//@ func heap.FromSlice
+//@   property C03 C01 C16
+//@   requires swo(comp)
+//@   ghost ref seq[T] = lambda j int :: data[j]
+//@   ghost perm map[int]int = idmap()
+//@   ghost tmp int
+//@   ghost i0 int = len(data) / 2 - 1
+//@   modifies elems(data)
+//@   ensures result != nil && fresh(result) && fresh(result.mu) && result.mu != nil && result.data == data && result.comp == comp
+//@   ensures H(data, comp, len(data), 0)
+//@   ensures permOK(data, len(data), ref, perm, 0, len(data))
+//@   ensures forall a int :: a < soff(data) || a >= soff(data) + len(data) ==> elems(data)[a] == old(elems(data)[a])
+//@ loop 1
+//@   invariant 0 - 1 <= i && i < len(data) && i0 == i && fresh(mu) && mu != nil
+//@   invariant H(data, comp, len(data), i + 1)
+//@   invariant permOK(data, len(data), ref, perm, 0, len(data))
+//@   invariant forall a int :: a < soff(data) || a >= soff(data) + len(data) ==> elems(data)[a] == old(elems(data)[a])
+//@   ghost i0 = i
+//@ loop 2
+//@   invariant 0 <= i0 && i0 <= i && i < len(data)
+//@   invariant forall k int :: { data[k] } 1 <= k && k < len(data) && (k-1)/2 >= i0 && (k-1)/2 != i ==> ord(data, comp, k)
+//@   invariant i >= 1 && (i-1)/2 >= i0 ==> forall k int :: { data[k] } 1 <= k && k < len(data) && (k-1)/2 == i ==> !call(comp, data[k], data[(i-1)/2])
+//@   invariant permOK(data, len(data), ref, perm, 0, len(data))
+//@   invariant forall a int :: a < soff(data) || a >= soff(data) + len(data) ==> elems(data)[a] == old(elems(data)[a])
+//@   ghost-at swap#1: tmp = perm[i]
+//@   ghost-at swap#1: perm[i] = perm[current]
+//@   ghost-at swap#1: perm[current] = tmp
+
+//@ func heap.Sort
+//@   property C03 C16
+//@   requires swo(comp)
+//@   ghost ref seq[T] = lambda j int :: data[j]
+//@   ghost perm map[int]int = idmap()
+//@   ghost tmp int
+//@   ghost src map[int]int
+//@   modifies elems(data)
+//@   ensures result == data
+//@   ensures permOK(data, len(data), ref, perm, 0, len(data))
+//@   ensures forall a int, b int :: 0 <= a && a < b && b < len(data) ==> !call(comp, data[a], data[b])
+//@   ensures forall a int :: a < soff(data) || a >= soff(data) + len(data) ==> elems(data)[a] == old(elems(data)[a])
+//@ loop 1
+//@   invariant 0 - 1 <= i && i < len(data) && heap != nil && fresh(heap) && fresh(heap.mu) && heap.mu != nil && heap.data == data && heap.comp == comp && fresh(mu) && mu != nil
+//@   invariant H(data, comp, i + 1, 0)
+//@   invariant permOK(data, len(data), ref, perm, 0, len(data))
+//@   invariant forall a int, b int :: i < a && a < b && b < len(data) ==> !call(comp, data[a], data[b])
+//@   invariant forall a int, b int :: 0 <= a && a <= i && i < b && b < len(data) ==> !call(comp, data[a], data[b])
+//@   invariant forall a int :: a < soff(data) || a >= soff(data) + len(data) ==> elems(data)[a] == old(elems(data)[a])
+//@   lemma forall k int :: 0 <= k && k <= i ==> !call(comp, data[k], data[0])
+//@   ghost-at swap#1: tmp = perm[0]
+//@   ghost-at swap#1: perm[0] = perm[i]
+//@   ghost-at swap#1: perm[i] = tmp
+//@   call moveDown#1 ghost lo = 0; ref = ref; p0 = perm; plo = 0; phi = len(data)
+
+//@ pred mergedOK(r []T, a []T, b []T, pm map[int]int, n int) := (forall k int :: { pm[k] } 0 <= k && k < len(r) ==> 0 <= pm[k] && pm[k] < n && r[k] == (pm[k] < len(a) ? a[pm[k]] : b[pm[k] - len(a)])) && (forall x int, y int :: { pm[x], pm[y] } 0 <= x && x < y && y < len(r) ==> pm[x] != pm[y])
+
+//@ func (*heap.Heap).Merge
+//@   property C03 C01
+//@   requires heapInv(h) && h2 != nil && h2.mu != nil
+//@   ghost pm map[int]int
+//@   ghost perm map[int]int
+//@   ghost ref seq[T]
+//@   ensures result != nil && fresh(result) && heapInv(result) && result.comp == h.comp
+//@   ensures len(result.data) == len(h.data) + len(h2.data)
+//@   ensures mergedOK(result.data, h.data, h2.data, pm, len(h.data) + len(h2.data))
+//@ loop 1
+//@   invariant 0 <= i && i <= len(h.data) && newHeap != nil && fresh(newHeap) && heapInv(newHeap) && newHeap.comp == h.comp && len(newHeap.data) == i && fresh(newHeap.data) && fresh(newHeap.mu)
+//@   invariant mergedOK(newHeap.data, h.data, h2.data, pm, i)
+//@   ghost-at Push#1: pm = lambda k int :: (perm[k] < len(newHeap.data) - 1 ? pm[perm[k]] : i)
+//@ loop 2
+//@   invariant 0 <= i && i <= len(h2.data) && newHeap != nil && fresh(newHeap) && heapInv(newHeap) && newHeap.comp == h.comp && len(newHeap.data) == len(h.data) + i && fresh(newHeap.data) && fresh(newHeap.mu)
+//@   invariant mergedOK(newHeap.data, h.data, h2.data, pm, len(h.data) + i)
+//@   ghost-at Push#2: pm = lambda k int :: (perm[k] < len(newHeap.data) - 1 ? pm[perm[k]] : len(h.data) + i)
+
+//@ func (*heap.Heap).Meld
+//@   property C03 C01
+//@   requires heapInv(h) && h2 != nil && h2.mu != nil
+//@   ghost pm map[int]int
+//@   ghost perm map[int]int
+//@   ghost ref seq[T]
+//@   ensures result != nil && fresh(result) && heapInv(result) && result.comp == h.comp
+//@   requires h != h2
+//@   ghost a0 []T = h.data
+//@   ghost b0 []T = h2.data
+//@   modifies h.data, h2.data
+//@   ensures len(result.data) == old(len(h.data)) + old(len(h2.data))
+//@   ensures mergedOK(result.data, a0, b0, pm, old(len(h.data)) + old(len(h2.data)))
+//@   ensures len(h.data) == 0 && len(h2.data) == 0
+//@ loop 1
+//@   invariant 0 <= i && i <= len(h.data) && newHeap != nil && fresh(newHeap) && heapInv(newHeap) && newHeap.comp == h.comp && len(newHeap.data) == i && fresh(newHeap.data) && fresh(newHeap.mu)
+//@   invariant h.data == old(h.data) && h2.data == old(h2.data)
+//@   invariant mergedOK(newHeap.data, h.data, h2.data, pm, i)
+//@   ghost-at Push#1: pm = lambda k int :: (perm[k] < len(newHeap.data) - 1 ? pm[perm[k]] : i)
+//@ loop 2
+//@   invariant 0 <= i && i <= len(h2.data) && newHeap != nil && fresh(newHeap) && heapInv(newHeap) && newHeap.comp == h.comp && len(newHeap.data) == len(h.data) + i && fresh(newHeap.data) && fresh(newHeap.mu)
+//@   invariant h.data == old(h.data) && h2.data == old(h2.data)
+//@   invariant mergedOK(newHeap.data, h.data, h2.data, pm, len(h.data) + i)
+//@   ghost-at Push#2: pm = lambda k int :: (perm[k] < len(newHeap.data) - 1 ? pm[perm[k]] : len(h.data) + i)
+
+//@ func (*heap.Heap).getIndex
+//@   property C03 C01
+//@   lock h.mu : none
+//@   requires h.mu != nil
+//@   ensures result1 ==> 0 <= result0 && result0 < len(slice) && slice[result0] == val
+//@   ensures !result1 ==> result0 == 0 - 1 && forall k int :: 0 <= k && k < len(slice) ==> slice[k] != val
+//@ loop 1
+//@   invariant 0 <= i
+//@   invariant forall k int :: 0 <= k && k < i ==> slice[k] != val
+
+//@ func (*heap.Heap).Delete
+//@   property C03 C01
+//@   lock h.mu : none
+//@   requires heapInv(h)
+//@   ghost ref seq[T] = lambda j int :: h.data[j]
+//@   ghost perm map[int]int
+//@   ghost src map[int]int
+//@   ghost gone int
+//@   modifies h.data, elems(h.data)
+//@   ensures !(exists k int :: 0 <= k && k < old(len(h.data)) && old(h.data[k]) == val) ==> !result0 && result1 != nil && len(h.data) == old(len(h.data)) && forall k int :: 0 <= k && k < len(h.data) ==> h.data[k] == old(h.data[k])
+//@   ensures (exists k int :: 0 <= k && k < old(len(h.data)) && old(h.data[k]) == val) ==> result0 && result1 == nil && len(h.data) == old(len(h.data)) - 1
+//@   ensures result0 ==> 0 <= gone && gone < old(len(h.data)) && old(h.data[gone]) == val && permOK(h.data, len(h.data), ref, perm, 0, old(len(h.data))) && forall k int :: { perm[k] } 0 <= k && k < len(h.data) ==> perm[k] != gone
+//@   ensures heapInv(h)
+//@   ghost-at getIndex#1: gone = $ret0
+//@   call moveDown#1 ghost lo = 0; ref = ref; p0 = store(idmap(), gone, len(h.data)); plo = 0; phi = len(h.data) + 1
